@@ -832,6 +832,20 @@ def expected_and_observed(op, kinds, datas, reflected=False, via='call'):
                         break
                 if not same(emb, expd + expd):
                     obs = {'embedded twice in Pseq': emb}
+            elif same(obs, expd) and isinstance(res, st['ptt'].Pattern):
+                # stream operands are consumed by the run above: fresh operands,
+                # the composed pattern embedded once in another pattern
+                objs2 = [build(kd, d) for kd, d in zip(kinds, datas)]
+                res2 = op.rcall(objs2[0], objs2[1]) if reflected else op.call(*objs2)
+                strm = st['stm'].stream(st['lsp'].Pseq([res2]))
+                emb = []
+                for _ in range(n + 2):
+                    try:
+                        emb.append(plain(strm.next()))
+                    except StopIteration:
+                        break
+                if not same(emb, expd):
+                    obs = {'embedded in Pseq': emb}
     except Exception as e:
         return 'raises', '%s: %s' % (type(e).__name__, e), expd
     if same(obs, expd):
@@ -925,6 +939,11 @@ def forms_for(op, recv):
     if recv in LAZY_INDEX or recv in LAZY_SEQ:
         forms.append(((recv,) * a, False))
         forms.append(((recv, recv) + ('number',) * (a - 2), False))
+    if recv == 'pseq':
+        # a pattern receiver with stream (not pattern) arguments
+        forms.append((('pseq',) + ('routine',) * (a - 1), False))
+        forms.append((('pseq', 'funcstream') + ('number',) * (a - 2), False))
+        forms.append((('pseq', 'number') + ('routine',) * (a - 2), False))
     if recv == 'channellist' and op.source == 'absobject':
         forms.append(((recv, 'list') + ('number',) * (a - 2), False))
         forms.append(((recv,) + ('list',) * (a - 1), False))
